@@ -68,6 +68,23 @@ func handCases(prop, tier string, seed uint64) []Case {
 	pbm, _ := json.Marshal(handP{Cfg: plainM, Init: 13, Flag: os.O_RDWR, Ops: []HOp{{K: "write", N: 2, DSeed: 5}}})
 	cases = append(cases, Case{ID: "c14-regress-memcache-inplace-write", Seed: 7, Kind: "random", P: pbm})
 	wit("seek-past-eof-readmode", plainF, 10, os.O_RDONLY, []HOp{{K: "seek", Off: 15, Wh: 0}, {K: "seek", Off: 0, Wh: 1}})
+	// scale: files and single calls beyond every internal staging size (tens of MiB), on handles in read mode and in write mode
+	hugeN := 2
+	if tier == "thorough" {
+		hugeN = 6
+	}
+	for i := 0; i < hugeN; i++ {
+		sz := 40<<20 + 5 + i*4099
+		cfgH := []Cfg{plainF, plainM, {Comp: "lz4", Level: "fastest", RS: 64, WC: "file"}}[i%3]
+		ops := []HOp{{K: "read", N: 36 << 20}, {K: "seek", Off: 0, Wh: 1}, {K: "readat", N: 35 << 20, Off: 100}, {K: "read", N: 1 << 20}, {K: "seek", Off: 5, Wh: 0}, {K: "read", N: sz + 7}, {K: "stat"}}
+		fl := os.O_RDONLY
+		if i%2 == 1 {
+			fl = os.O_RDWR
+			ops = []HOp{{K: "read", N: 33<<20 + 1}, {K: "write", N: 100, DSeed: 9}, {K: "seek", Off: 3, Wh: 0}, {K: "read", N: 39 << 20}, {K: "readat", N: 34 << 20, Off: 1 << 20}, {K: "seek", Off: 0, Wh: 2}, {K: "stat"}}
+		}
+		pb, _ := json.Marshal(handP{Cfg: cfgH, Init: sz, Flag: fl, Ops: ops})
+		cases = append(cases, Case{ID: fmt.Sprintf("c14-huge-%d", i), Seed: subSeed(seed, prop, "huge", fmt.Sprint(i)), Kind: "random", P: pb})
+	}
 	inits := []int{-1, 0, 1, 10, 511, 512, 513, 2000, 10241}
 	for i := 0; i < n; i++ {
 		cfg := cfgs[i%len(cfgs)]
@@ -311,6 +328,14 @@ func handRun(prop, tier string, c Case, w *Worker) (res Result) {
 				viol("read|no-progress", "Read(%d) at offset %d of %d returned (0,%v)", op.N, mh.Pos, size(), err)
 				return
 			}
+			full := avail
+			if int64(op.N) < full {
+				full = int64(op.N)
+			}
+			if int64(n) != full {
+				viol("read|count", "Read(%d) at offset %d of %d returned %d bytes (err=%v), a byte-array file returns %d", op.N, mh.Pos, size(), n, err, full)
+				return
+			}
 			if err == io.EOF && int64(n) != avail {
 				viol("read|early-eof", "Read signalled EOF after %d of %d remaining bytes", n, avail)
 				return
@@ -483,5 +508,5 @@ func init() {
 	register(&Engine{Name: "handles", Props: []string{"C14"}, Cases: handCases, Run: handRun})
 	propMeta["C14"] = PropMeta{Level: "exploration",
 		Rule: "one handle-call sequence per case (Read, ReadAt, Seek with 3 whences, Write, WriteAt, WriteString, Truncate, Sync, Stat; offsets negative/0/inside/at/beyond end; buffers 0,1,size-1,size,size+7) on a file of 0..one record+1 bytes opened with a generated flag combination; every call's count, bytes, offset, error-ness and EOF signalling compared with an os.File-semantics byte-array model, then content and size after Close through a fresh open; non-trivial = at least 3 effective read/write calls; distinct = distinct (configuration, initial size, flags, call list)",
-		Assumptions: []string{"a short read that carries io.EOF together with its last bytes is accepted (io.Reader contract)", "the cursor after WriteAt is reference-ambiguous and is pinned by a Seek", "WriteAt on O_APPEND handles is reference-ambiguous and not generated", "op shapes of the open findings (in-place writes with the memory write cache, seeks past the end in read mode) only in their witness cases"}}
+		Assumptions: []string{"a full-count read that carries io.EOF together with its last bytes is accepted (io.Reader contract)", "the cursor after WriteAt is reference-ambiguous and is pinned by a Seek", "WriteAt on O_APPEND handles is reference-ambiguous and not generated", "op shapes of the open findings (in-place writes with the memory write cache, seeks past the end in read mode) only in their witness cases"}}
 }
